@@ -900,6 +900,10 @@ V("c03-twin-weights-aligned-unconditionally", "C03", "-", "dask_array/reductions
   "        if wgt.chunks != x.chunks:\n            wgt = wgt.rechunk(x.chunks)\n", "        wgt = wgt.rechunk(x.chunks)\n", twin=True)
 V("c02-coarse-pushdown-accepts-empty-selection-again", "C02", "R02.4", "dask_array/_blockwise.py",
   "                if (first is None or last < first) and isinstance(adjust_chunks.get(out_ind[axis]), (tuple, list)):\n                    # An empty selection leaves one empty input block, which an\n                    # explicit per-block ``adjust_chunks`` tuple cannot describe.\n                    return None\n", "", expect="_accept_slice_coarse")
+V("c04-reduction-layer-delegates-to-lowered-top", "C04", "R04.9", "dask_array/reductions/_reduction.py",
+  "    def _simplify_up(self, parent, dependents):\n        \"\"\"Allow slice operations to push through Reduction.\"\"\"", "    def _layer(self):\n        return self.lower_completely()._layer()\n\n    def _simplify_up(self, parent, dependents):\n        \"\"\"Allow slice operations to push through Reduction.\"\"\"", expect="Reduction")
+V("c04-twin-layer-calls-super", "C04", "-", "dask_array/reductions/_reduction.py",
+  "    def _simplify_up(self, parent, dependents):\n        \"\"\"Allow slice operations to push through Reduction.\"\"\"", "    def _layer(self):\n        return super()._layer()\n\n    def _simplify_up(self, parent, dependents):\n        \"\"\"Allow slice operations to push through Reduction.\"\"\"", twin=True)
 V("c02-detector-uses-forward-permutation", "C02", "R02.6", "dask_array/_blockwise.py",
   "        inv = expr._inverse_axes\n        dep_mapping = tuple(parent_mapping[inv[i]] for i in range(len(inv)))", "        dep_mapping = tuple(parent_mapping[ax] for ax in expr.axes)", expect="_symbolic_mapping")
 V("c02-twin-detector-local-rename", "C02", "-", "dask_array/_blockwise.py",
